@@ -9,11 +9,11 @@
    C08's subject); the model tracks what the sequencing depends on: the DNS id of the latest query
    (chunkid), the command letter it carried, and the number of queries sent.
 
-   Not modelled here: handshake_login (its parsing is Shell.v), the raw-UDP half of handshake_raw_udp,
-   client_handshake as a whole. *)
+   handshake_login uses the reply parser and the command builder of Shell.v (C13); client_handshake is
+   modelled for raw_mode = 0 (the -r path: no raw-UDP attempt).  Not modelled here: handshake_raw_udp. *)
 From Coq Require Import List NArith ZArith Arith Bool.
 From RecordUpdate Require Import RecordUpdate.
-From Iodine Require Import Generated.SrcConsts Base DnsName DnsMsg Negotiate LoginGlue.
+From Iodine Require Import Generated.SrcConsts Base DnsName DnsMsg Negotiate LoginGlue Shell.
 Import ListNotations.
 Local Open Scope N_scope.
 
@@ -38,9 +38,14 @@ Record hs := mkhs {
   h_uid : Z;          (* userid (a C char) *)
   h_seed : Z;         (* *seed of handshake_version *)
   h_up : N;           (* dataenc: 0 Base32, 1 Base64, 2 Base64u, 3 Base128 *)
-  h_lazy : bool; h_st : N   (* lazymode, selecttimeout *)
+  h_lazy : bool; h_st : N;  (* lazymode, selecttimeout *)
+  h_down : N;         (* downenc (a character; 32 = not chosen) *)
+  h_edns : bool;      (* dnsc_use_edns0 *)
+  h_ifname : list N;  (* if_name of tun.c *)
+  h_sys : list (list N)   (* arguments of system(), in order *)
 }.
-#[export] Instance eta_hs : Settable _ := settable! mkhs <h_cid; h_lastc; h_q; h_qtype; h_uid; h_seed; h_up; h_lazy; h_st>.
+#[export] Instance eta_hs : Settable _ := settable! mkhs <h_cid; h_lastc; h_q; h_qtype; h_uid; h_seed; h_up; h_lazy; h_st;
+  h_down; h_edns; h_ifname; h_sys>.
 
 Definition next_chunkid (id : N) : N :=
   let v := (id + 7727) mod 65536 in if v =? 0 then 7727 else v.
@@ -109,6 +114,8 @@ Definition s_BADLEN : list N := [66; 65; 68; 76; 69; 78].
 Definition s_BADFRAG : list N := [66; 65; 68; 70; 82; 65; 71].
 Definition s_Lazy : list N := [76; 97; 122; 121].
 Definition s_Immediate : list N := [73; 109; 109; 101; 100; 105; 97; 116; 101].
+Definition s_LNAK : list N := [76; 78; 65; 75].
+Definition is_lnak_or_badip (buf : list N) : bool := has_prefix s_LNAK (cstr buf) || has_prefix s_BADIP (cstr buf).
 Definition is_bad3 (buf : list N) : bool := has_prefix s_BADLEN buf || has_prefix s_BADIP buf || has_prefix s_BADCODEC buf.
 
 (* ---- the steps ------------------------------------------------------------------------------------------ *)
@@ -294,34 +301,89 @@ Definition hs_autoprobe : M N :=
   m <- hs_autoprobe_loop 16 src_PROBE_START src_PROBE_RANGE 0 ;;
   ret (if (m <=? Z.of_N src_PROBE_MIN_OK)%Z then 0 else Z.to_N m - src_PROBE_HDR).
 
+(* handshake_login: Some 0 logged in (tunnel configured), Some 1 refused / gave up, None: errx(4, "Failed to set IP and MTU").
+   Every system() call succeeds (as in the harness); the commands are those of Shell.v *)
+Definition login_body : M (option (option Z)) :=
+  r <- ask 108 76 cap_term ;;
+  match r with
+  | WRead buf =>
+      if (0 <? length buf)%nat then
+        s <- get ;;
+        let '(cmds, more) := login_step mask_x86 (h_ifname s) true buf in
+        modify (fun s => s <| h_sys := h_sys s ++ cmds |>) ;;;
+        if more then ret None
+        else match cmds with
+             | [_; _] => ret (Some (Some 0%Z))
+             | [] => if is_lnak_or_badip buf then ret (Some (Some 1%Z)) else ret (Some None)
+             | _ => ret (Some None)
+             end
+      else ret None
+  | _ => ret None
+  end.
+Definition hs_login : M (option Z) := attempts 5 login_body (ret (Some 1%Z)).
+
+(* client_handshake(dns_fd, raw_mode = 0, autodetect_frag_size, fragsize): Some rv, or None for errx *)
+Definition hs_full (autofrag : bool) (fragsize : N) : M (option Z) :=
+  modify (fun s => s <| h_edns := false |>) ;;;
+  s <- get ;;
+  r0 <- (if h_qtype s =? T_UNSET then hs_qtype_auto else ret 0%Z) ;;
+  if negb (r0 =? 0)%Z then ret (Some r0) else
+  r1 <- hs_version ;;
+  if negb (r1 =? 0)%Z then ret (Some r1) else
+  r2 <- hs_login ;;
+  match r2 with
+  | None => ret None
+  | Some 0%Z =>
+      modify (fun s => s <| h_edns := true |>) ;;;
+      e <- hs_downenctest ;;
+      modify (fun s => s <| h_edns := e |>) ;;;
+      up <- hs_upenc_auto ;;
+      (match assoc up src_upcodec_res src_upcodec_bits with
+       | Some bits => hs_switch_codec bits
+       | None => ret tt
+       end) ;;;
+      s1 <- get ;;
+      (if h_down s1 =? 32 then d <- hs_downenc_auto ;; modify (fun s => s <| h_down := d |>) else ret tt) ;;;
+      s2 <- get ;;
+      (if h_down s2 =? 32 then ret tt else hs_switch_downenc) ;;;
+      (if h_lazy s2 then hs_try_lazy else ret tt) ;;;
+      fs <- (if autofrag then hs_autoprobe else ret fragsize) ;;
+      if fs =? 0 then ret (Some 1%Z) else
+      hs_set_fragsize ;;; ret (Some 0%Z)
+  | Some r => ret (Some r)
+  end.
+
 (* ---- one scripted step, as harness/h_hsfuzz.c runs it ---------------------------------------------------- *)
 
 Inductive stepname :=
 | SVersion | SEdns0 | SUpenctest (pat : list N) | SUpencAuto | SDownenctest | SDownencAuto | SQtypetest | SQtypeAuto
-| SSwitchCodec (bits : N) | SSwitchDownenc | STryLazy | SLazyoff | SAutoprobe | SSetFragsize.
+| SSwitchCodec (bits : N) | SSwitchDownenc | STryLazy | SLazyoff | SAutoprobe | SSetFragsize
+| SLogin | SFull (autofrag : bool) (fragsize : N).
 
 Definition upres_rv (u : upres) : Z := match u with UpSwap => (-1)%Z | UpFail => 0%Z | UpPass => 1%Z end.
 Definition bool_rv (b : bool) : Z := if b then 1%Z else 0%Z.
 
-(* the int the harness prints as rv (0 for the void functions) *)
-Definition run_step (st : stepname) : M Z :=
+(* the int the harness prints as rv (0 for the void functions); None: the client ended in errx() *)
+Definition run_step (st : stepname) : M (option Z) :=
   match st with
-  | SVersion => hs_version
-  | SEdns0 => b <- hs_downenctest ;; ret (bool_rv b)
-  | SUpenctest pat => u <- hs_upenctest pat ;; ret (upres_rv u)
-  | SUpencAuto => n <- hs_upenc_auto ;; ret (Z.of_N n)
-  | SDownenctest => b <- hs_downenctest ;; ret (bool_rv b)
-  | SDownencAuto => n <- hs_downenc_auto ;; ret (Z.of_N n)
-  | SQtypetest => b <- hs_qtypetest ;; ret (bool_rv b)
-  | SQtypeAuto => hs_qtype_auto
-  | SSwitchCodec bits => hs_switch_codec bits ;;; ret 0%Z
-  | SSwitchDownenc => hs_switch_downenc ;;; ret 0%Z
-  | STryLazy => hs_try_lazy ;;; ret 0%Z
-  | SLazyoff => hs_lazyoff ;;; ret 0%Z
-  | SAutoprobe => n <- hs_autoprobe ;; ret (Z.of_N n)
-  | SSetFragsize => hs_set_fragsize ;;; ret 0%Z
+  | SVersion => r <- hs_version ;; ret (Some r)
+  | SEdns0 => b <- hs_downenctest ;; ret (Some (bool_rv b))
+  | SUpenctest pat => u <- hs_upenctest pat ;; ret (Some (upres_rv u))
+  | SUpencAuto => n <- hs_upenc_auto ;; ret (Some (Z.of_N n))
+  | SDownenctest => b <- hs_downenctest ;; ret (Some (bool_rv b))
+  | SDownencAuto => n <- hs_downenc_auto ;; ret (Some (Z.of_N n))
+  | SQtypetest => b <- hs_qtypetest ;; ret (Some (bool_rv b))
+  | SQtypeAuto => r <- hs_qtype_auto ;; ret (Some r)
+  | SSwitchCodec bits => hs_switch_codec bits ;;; ret (Some 0%Z)
+  | SSwitchDownenc => hs_switch_downenc ;;; ret (Some 0%Z)
+  | STryLazy => hs_try_lazy ;;; ret (Some 0%Z)
+  | SLazyoff => hs_lazyoff ;;; ret (Some 0%Z)
+  | SAutoprobe => n <- hs_autoprobe ;; ret (Some (Z.of_N n))
+  | SSetFragsize => hs_set_fragsize ;;; ret (Some 0%Z)
+  | SLogin => hs_login
+  | SFull autofrag fragsize => hs_full autofrag fragsize
   end.
 
-Definition hs_init (cid qtype : N) (uid seed : Z) (lazy : bool) : hs :=
+Definition hs_init (cid qtype : N) (uid seed : Z) (lazy : bool) (down : N) (ifname : list N) : hs :=
   {| h_cid := cid; h_lastc := 0; h_q := 0; h_qtype := qtype; h_uid := uid; h_seed := seed; h_up := 0;
-     h_lazy := lazy; h_st := 4 |}.
+     h_lazy := lazy; h_st := 4; h_down := down; h_edns := false; h_ifname := ifname; h_sys := [] |}.
